@@ -57,7 +57,11 @@ fn faulty_payload(fault: &str, pos: &str) -> Vec<u8> {
         "predicate_name_out_of_range" => b.facts_v2[0].predicate.name = 9999,
         "key_out_of_range_rule_scope" => b.rules_v2[0].scope = vec![schema::Scope { content: Some(scope::Content::PublicKey(77)) }],
         "key_out_of_range_block_scope" => b.scope = vec![schema::Scope { content: Some(scope::Content::PublicKey(77)) }],
-        "head_variable_unbound" => b.rules_v2[0].head.terms = vec![term(term_v2::Content::Variable(4242))],
+        "head_variable_unbound" => {
+            // a variable the body does not bind, named by a symbol that EXISTS (the one of the fact's string)
+            let known = match b.facts_v2[0].predicate.terms[0].content { Some(term_v2::Content::String(i)) => i as u32, _ => 4242 };
+            b.rules_v2[0].head.terms = vec![term(term_v2::Content::Variable(known))]
+        }
         "expr_empty" => ops_of(&mut b, vec![]),
         "expr_binary_underflow" => ops_of(&mut b, vec![val(term_v2::Content::Integer(1)), bin(9)]),
         "expr_leftover" => ops_of(&mut b, vec![val(term_v2::Content::Integer(1)), val(term_v2::Content::Integer(2))]),
@@ -262,9 +266,133 @@ fn snapshot_roundtrip(a: &Authorizer) -> Result<(), String> {
     Ok(())
 }
 
+/// an authorizer snapshot whose saved token block (`snapshot_block`) or authorizer block
+/// (`snapshot_authorizer`) carries the fault; Err = the fault cannot be expressed there
+fn mint_snapshot(fault: &str, pos: &str, case: &Value) -> Result<Vec<u8>, String> {
+    let e = |e: biscuit_auth::error::Token| format!("{e:?}");
+    let root = keys::keypair("R", "ed");
+    let nk = keys::keypair("K1", "ed");
+    if fault.starts_with("eval") {
+        let extra = eval_source(case);
+        let (tsrc, asrc) = if pos == "snapshot_authorizer" { (BASE.to_string(), format!("{extra} allow if true;")) } else { (format!("{BASE} {extra}"), "allow if true;".to_string()) };
+        let tok = Biscuit::builder().code(&tsrc).map_err(e)?.build_with_key_pair(&root, SymbolTable::new(), &nk).map_err(e)?;
+        let a = AuthorizerBuilder::new().code(&asrc).map_err(e)?.limits(limits()).build(&tok).map_err(e)?;
+        return a.to_raw_snapshot().map_err(|e| format!("{e:?}"));
+    }
+    let tok = Biscuit::builder().code(BASE).map_err(e)?.build_with_key_pair(&root, SymbolTable::new(), &nk).map_err(e)?;
+    let a = AuthorizerBuilder::new().code("allow if true;").map_err(e)?.limits(limits()).build(&tok).map_err(e)?;
+    let raw = a.to_raw_snapshot().map_err(|e| format!("{e:?}"))?;
+    let mut snap = schema::AuthorizerSnapshot::decode(&raw[..]).map_err(|e| format!("{e:?}"))?;
+    let fb = schema::Block::decode(&faulty_payload(fault, "authority")[..]).map_err(|_| "the fault is not a block".to_string())?;
+    if fb.symbols.len() != base_block(false).symbols.len() {
+        snap.world.symbols = fb.symbols.clone();
+    }
+    if !fb.public_keys.is_empty() {
+        snap.world.public_keys = fb.public_keys.clone();
+    }
+    let target = if pos == "snapshot_authorizer" { &mut snap.world.authorizer_block } else { &mut snap.world.blocks[0] };
+    target.facts_v2 = fb.facts_v2;
+    target.rules_v2 = fb.rules_v2;
+    target.checks_v2 = fb.checks_v2;
+    target.scope = fb.scope;
+    target.version = fb.version;
+    Ok(snap.encode_to_vec())
+}
+
+/// every public operation on an authorizer (and an authorizer builder) obtained from untrusted snapshot bytes
+pub fn sweep_snapshot(bytes: &[u8], out: &mut Vec<(String, String)>) {
+    let e = |e: biscuit_auth::error::Token| format!("{e:?}");
+    guard("from_base64_snapshot", out, || Authorizer::from_base64_snapshot(&base64::encode_config(bytes, base64::URL_SAFE)).map(|_| ()).map_err(e));
+    let b = guard("builder_from_raw_snapshot", out, || AuthorizerBuilder::from_raw_snapshot(bytes).map_err(e));
+    if let Some(b) = b {
+        guard("builder.dump_code", out, || Ok(b.dump_code()));
+        guard("builder.to_raw_snapshot", out, || b.clone().to_raw_snapshot().map(|_| ()).map_err(|e| format!("{e:?}")));
+        if let Some(mut a) = guard("builder.build_unauthenticated", out, || b.clone().build_unauthenticated().map_err(e)) {
+            guard("builder.authorize", out, || a.authorize().map_err(e));
+        }
+    }
+    let a = guard("from_raw_snapshot", out, || Authorizer::from_raw_snapshot(bytes).map_err(e));
+    if let Some(mut a) = a {
+        guard("dump_code(before)", out, || Ok(a.dump_code()));
+        guard("print_world(before)", out, || Ok(a.print_world()));
+        guard("snapshot(before)", out, || snapshot_roundtrip(&a));
+        guard("run", out, || a.run().map_err(e));
+        guard("authorize", out, || a.authorize().map_err(e));
+        guard("query", out, || a.query::<_, (String,), _>("q($x) <- user($x)").map_err(e));
+        guard("query_all", out, || a.query_all::<_, (String,), _>("q($x) <- user($x)").map_err(e));
+        guard("dump_code", out, || Ok(a.dump_code()));
+        guard("print_world", out, || Ok(a.print_world()));
+        guard("snapshot", out, || snapshot_roundtrip(&a));
+        guard("to_base64_snapshot", out, || a.to_base64_snapshot().map(|_| ()).map_err(|e| format!("{e:?}")));
+    }
+}
+
+fn replay_snapshot_case(idx: usize, case: &Value, fault: &str, pos: &str) -> Value {
+    let mut obs: Vec<(String, String)> = Vec::new();
+    let mut problems: Vec<String> = Vec::new();
+    match util::catch(|| mint_snapshot(fault, pos, case)) {
+        Ok(Ok(bytes)) => {
+            sweep_snapshot(&bytes, &mut obs);
+            for (k, v) in &obs {
+                if v.starts_with("PANIC") || v.starts_with("HANG") {
+                    problems.push(format!("{k}: {v}"));
+                }
+            }
+            let get = |n: &str| obs.iter().find(|(k, _)| k == n).map(|(_, v)| v.clone());
+            if fault == "none" && get("authorize").as_deref() != Some("ok") {
+                problems.push(format!("the fault-free snapshot is not served: from_raw_snapshot {:?} authorize {:?}", get("from_raw_snapshot"), get("authorize")));
+            }
+        }
+        // the fault cannot be placed in a snapshot (not a block) or the library refuses to build it: nothing to sweep
+        Ok(Err(e)) => obs.push(("build".to_string(), format!("refused: {}", e.chars().take(120).collect::<String>()))),
+        Err(p) => problems.push(format!("building the snapshot PANICKED: {p}")),
+    }
+    json!({"idx": idx, "ok": problems.is_empty(), "problems": problems,
+           "observed": obs.iter().filter(|(k, _)| ["build", "from_raw_snapshot", "authorize"].contains(&k.as_str())).map(|(k, v)| json!([k, v])).collect::<Vec<_>>()})
+}
+
+/// Datalog source as an entry point: every parser entry point on the text, then - when it is accepted - a
+/// token and an authorizer built from it
+fn replay_source_case(idx: usize, case: &Value) -> Value {
+    use std::convert::TryFrom;
+    let src = case["c"]["src"].as_str().unwrap();
+    let e = |e: biscuit_auth::error::Token| format!("{e:?}");
+    let mut obs: Vec<(String, String)> = Vec::new();
+    let mut problems: Vec<String> = Vec::new();
+    guard("Fact::try_from", &mut obs, || biscuit_auth::builder::Fact::try_from(src).map(|x| { let _ = x.to_string(); }).map_err(e));
+    guard("Rule::try_from", &mut obs, || biscuit_auth::builder::Rule::try_from(src).map(|x| { let _ = x.to_string(); }).map_err(e));
+    guard("Check::try_from", &mut obs, || biscuit_auth::builder::Check::try_from(src).map(|x| { let _ = x.to_string(); }).map_err(e));
+    guard("Policy::try_from", &mut obs, || biscuit_auth::builder::Policy::try_from(src).map(|x| { let _ = x.to_string(); }).map_err(e));
+    let with_semi = format!("{src};");
+    let bb = guard("BlockBuilder::code", &mut obs, || BlockBuilder::new().code(&with_semi).map_err(e));
+    guard("AuthorizerBuilder::code", &mut obs, || AuthorizerBuilder::new().code(&with_semi).map(|a| { let _ = a.dump_code(); }).map_err(e));
+    guard("BiscuitBuilder::code", &mut obs, || Biscuit::builder().code(&with_semi).map(|a| { let _ = a.to_string(); }).map_err(e));
+    if let Some(bb) = bb {
+        let t = guard("build", &mut obs, || Biscuit::builder().merge(bb.clone()).build_with_key_pair(&keys::keypair("R", "ed"), SymbolTable::new(), &keys::keypair("K1", "ed")).map_err(e));
+        if let Some(t) = t {
+            if let Ok(bytes) = t.to_vec() {
+                sweep(&bytes, &mut obs);
+            }
+        }
+    }
+    for (k, v) in &obs {
+        if v.starts_with("PANIC") || v.starts_with("HANG") {
+            problems.push(format!("{k}: {v}"));
+        }
+    }
+    json!({"idx": idx, "ok": problems.is_empty(), "problems": problems,
+           "observed": obs.iter().filter(|(k, _)| ["BlockBuilder::code", "build", "authorize"].contains(&k.as_str())).map(|(k, v)| json!([k, v])).collect::<Vec<_>>()})
+}
+
 fn replay_case(c: &mut Concretiser, idx: usize, case: &Value) -> Value {
     let fault = case["c"]["fault"].as_str().unwrap();
     let pos = case["c"]["pos"].as_str().unwrap();
+    if pos == "source" {
+        return replay_source_case(idx, case);
+    }
+    if pos.starts_with("snapshot_") {
+        return replay_snapshot_case(idx, case, fault, pos);
+    }
     let mut obs: Vec<(String, String)> = Vec::new();
     let mut problems: Vec<String> = Vec::new();
     let minted = if fault.starts_with("eval") {
